@@ -14,7 +14,7 @@ rc=$?
 for f in $D/out/replays/$PROP/*.json; do [ -f "$f" ] && python3 - "$f" <<'P'
 import json,sys
 d=json.load(open(sys.argv[1]))
-print('--- replay', d['build'], d['oracle'], d['sig'], 'shrunk', d['shrink_steps']); print(d['message'][:800]); print(json.dumps(d['scenario'])[:600])
+print('--- replay', d['build'], d['oracle'], d['sig'], 'shrunk', d['shrink_steps']); print(d['message'][:800]); print(json.dumps(d['scenario'])[:600]); print('schedule:', d.get('schedule_note'), (d.get('schedule') or {}).get('picks'))
 P
 done
 echo "exit $rc"
